@@ -452,7 +452,7 @@ def run_case(draws, prop, tier="quick"):
         qplan = (qop, qtext, qseed, qexp)
 
     sched = draws.stream("sched")
-    kernel = Kernel(sched, policy={"kind": "random"}, max_steps=40000)
+    kernel = Kernel(sched, policy={"kind": "random"}, max_steps=400000)
     loop = SimLoop(kernel)
     rt = AsyncIORuntime(loop=loop,
                         execute_blocking_functions_in_thread=in_thread)
